@@ -332,3 +332,53 @@ class Timer:
     @property
     def s(self) -> float:
         return time.time() - self.t0
+
+
+def generic_replay(prop: str, path: str) -> int:
+    """Re-runs the input recorded in a replay file on the implementation (real `python -m rattr` in a scratch
+    directory) and prints what was recorded next to what happens now."""
+    import tempfile
+    payload = json.loads(Path(path).read_text())
+    print(f"replay of {path} (property {prop})")
+    print("recorded:", json.dumps({k: v for k, v in payload.items() if k not in ("files", "reference_files", "source", "merged_source", "module_prelude")}, indent=1, default=str)[:4000])
+    files = None
+    for key in ("files", "files_a"):
+        if isinstance(payload.get(key), dict):
+            files = dict(payload[key])
+            break
+    if files is None:
+        for key in ("source", "function", "module_source_tail"):
+            if isinstance(payload.get(key), str):
+                files = {"target.py": payload[key]}
+                break
+    if files is None and isinstance(payload.get("call_site"), str):
+        files = {"target.py": payload.get("module_prelude", "") + "\n" + payload["call_site"], "mod_imp.py": "def mfunc(z):\n    return z.attr_mfunc\n"}
+    if files is None and isinstance(payload.get("definitions"), list):
+        files = {"target.py": "\n".join(payload["definitions"])}
+    if files is None:
+        print("no runnable program is recorded in this replay (it names a theorem / correspondence suite: see `broken`)")
+        return 0
+    opts = payload.get("command_line") or payload.get("options") or []
+    opts = [o for o in opts if isinstance(o, str)]
+    if not any(o.endswith(".py") for o in opts):
+        opts = [*opts, "target.py"]
+    if payload.get("follow_imports") is not None and "-f" not in opts:
+        opts = ["-f", str(payload["follow_imports"]), *opts]
+    for pat in payload.get("exclude_imports") or []:
+        opts = ["-F", pat, *opts]
+    root = Path(tempfile.mkdtemp(prefix="rattrv_replay_"))
+    try:
+        for name, src in files.items():
+            f = root / name
+            f.parent.mkdir(parents=True, exist_ok=True)
+            f.write_text(src)
+        sub = payload.get("cwd_inside_project") or "."
+        env = dict(os.environ)
+        env.update({"PYTHONPATH": f"{REPO}:{root}" if sub != "." else str(REPO), "PYTHONHASHSEED": str(payload.get("PYTHONHASHSEED", 0)), "PYTHONDONTWRITEBYTECODE": "1"})
+        p = subprocess.run([PY, "-m", "rattr", *opts], cwd=root / sub, env=env, capture_output=True, text=True, timeout=120)
+        print(f"now: python -m rattr {' '.join(opts)}  ->  exit {p.returncode}")
+        print("stdout:", p.stdout[:3000])
+        print("stderr:", re.sub(r"\x1b\[[0-9;]*m", "", p.stderr)[-2000:])
+    finally:
+        shutil.rmtree(root, ignore_errors=True)
+    return 0
